@@ -17,3 +17,20 @@ Definition check_parts (n : nat) (parts : list res) (whole : ores) : bool :=
                    o_fuel := o_fuel whole; o_co2 := o_co2 whole; o_detail := None |} r
   | _ => false
   end.
+
+(* ---- the whole calculation from the plant's inputs (Model/Plant.v) against the implementation's totals:
+   fuel mass with constant specific consumption and constant generator (x rectifier) efficiency per genset
+   (kg per second per kW given per component, 0 for the others), genset running hours ---- *)
+From Feems Require Import Model.Bus Model.ElecBalance Model.Plant.
+(* a genset pushed below zero output by a storage unit is read through the generator the other way round: the
+   coefficient for negative outputs is consumption x efficiency instead of consumption / efficiency *)
+Definition lin_rate (cs cn : list Q) (j : nat) (p : Q) : Q := if Qle_bool 0 p then nth j cs 0 * p else nth j cn 0 * p.
+Definition hours_rate (gs : list bool) (j : nat) (p : Q) : Q :=
+  if nth j gs false && negb (qzero p) then 1 # 3600 else 0.
+Definition finite_run (plant : list (comp * cin)) (es : list edge) (swbs : list nat) (sts : list (list bool)) (n : nat) : bool :=
+  forallb (fun t => forallb (fun x => match x with Fin _ => true | NonFinite => false end) (balance_step plant es swbs sts t)) (seq 0 n).
+Definition check_run (plant : list (comp * cin)) (es : list edge) (swbs : list nat) (sts : list (list bool)) (dt : list Q)
+    (cs cn : list Q) (gs : list bool) (obs_fuel obs_hours : fl) : bool :=
+  negb (finite_run plant es swbs sts (length dt)) ||
+  (close_num 1 obs_fuel (Fin (run_figure (lin_rate cs cn) plant es swbs sts dt)) &&
+   close_num 1 obs_hours (Fin (run_figure (hours_rate gs) plant es swbs sts dt))).
